@@ -29,6 +29,7 @@ func main() {
 	keep := fs.Bool("keep", false, "keep the work directory")
 	file := fs.String("file", "", "replay file")
 	nprog := fs.Int("programs", 0, "number of compiled programs (0 = tier default)")
+	nwild := fs.Int("wild", -1, "number of thriftgo-only programs (-1 = tier default)")
 	fs.Parse(os.Args[2:])
 	switch os.Args[1] {
 	case "extract":
@@ -63,13 +64,13 @@ func main() {
 			fmt.Fprintln(os.Stderr, "-dir is required")
 			os.Exit(2)
 		}
-		os.Exit(run(*repo, *dir, *seed, *tier, *nprog, *keep, ""))
+		os.Exit(run(*repo, *dir, *seed, *tier, *nprog, *nwild, *keep, ""))
 	case "replay":
 		if *dir == "" || *file == "" {
 			fmt.Fprintln(os.Stderr, "-dir and -file are required")
 			os.Exit(2)
 		}
-		os.Exit(run(*repo, *dir, *seed, *tier, *nprog, *keep, *file))
+		os.Exit(run(*repo, *dir, *seed, *tier, *nprog, *nwild, *keep, *file))
 	default:
 		fmt.Fprintln(os.Stderr, "unknown subcommand", os.Args[1])
 		os.Exit(2)
